@@ -833,41 +833,46 @@ where
         placement: ContentPlacement,
     ) -> Result<ShmPointer, AllocationGrowError> {
         let msg = "Unable to grow memory";
-        let state = self.state_mut();
 
-        let current_segment = self.current_segment(msg);
+        // the chunk can only grow in-place inside the segment it was allocated from, which is
+        // not necessarily the current segment
+        let segment_id = old_pointer.offset.segment_id();
+        let segment = match self
+            .state()
+            .shared_memory_map
+            .get(SlotMapKey::new(segment_id.value() as usize))
+        {
+            Some(entry) => entry,
+            None => {
+                fatal_panic!(from self,
+                    "This should never happen! {msg} of {:?} since the corresponding shared memory segment is not available!",
+                    old_pointer.offset);
+            }
+        };
 
         match unsafe {
-            current_segment
+            segment
                 .shm
                 .grow(old_pointer, old_layout, new_layout, placement)
         } {
             Ok(mut ptr) => {
-                ptr.offset
-                    .set_segment_id(SegmentId::new(state.current_idx.value() as u8));
+                ptr.offset.set_segment_id(segment_id);
                 return Ok(ptr);
             }
-            Err(AllocationGrowError::OutOfMemory) => {
-                self.handle_reallocation(state, new_layout, &current_segment.shm)?
-            }
+            Err(AllocationGrowError::OutOfMemory) => (),
             Err(e) => {
                 fail!(from self, with e,
                         "{msg} due to {e:?}.");
             }
         }
 
-        let resized_segment = self.current_segment(msg);
-
-        let new_pointer = match resized_segment.shm.allocate(new_layout) {
-            Ok(mut ptr) => {
-                resized_segment.register_offset();
-                ptr.offset
-                    .set_segment_id(SegmentId::new(state.current_idx.value() as u8));
-                ptr
-            }
+        // the segment of the chunk cannot satisfy the request, move the chunk into the current
+        // segment, which is resized when required
+        let new_pointer = match self.allocate(new_layout) {
+            Ok(ptr) => ptr,
             Err(e) => {
                 fail!(from self, with e.into(),
-                    "{msg} since a resize and new allocation in a new segment failed. [{e:?}]");
+                    "{msg} since the allocation of a new chunk failed. [{e:?}]");
             }
         };
 
